@@ -399,36 +399,41 @@ def run_solver(name, text, timeout):
 
 
 def solve(text, timeout, order=("z3-new", "z3", "cvc5"), alts=(), stagger=1.5):
-    """Race the portfolio; the first decisive answer wins and the others are killed. To keep the machine from
-    being flooded, only the first back end (on the full query and on each reduced variant) starts at once; the
-    rest start after `stagger` seconds if the obligation is still open. `alts` are (name, text) variants of the
-    same obligation with FEWER hypotheses: only `unsat` is accepted from them."""
+    """Race a portfolio; the first decisive answer wins and the others are killed. Back ends start in waves so that
+    the machine is not flooded: most obligations are decided by the first wave within a second.
+      wave 0 (t=0):        first back end on the full query and on the first reduced variant
+      wave 1 (t=stagger):  relevancy-off configuration (full + first variant), remaining reduced variants
+      wave 2 (t=4*stagger): the other back ends on the full query, second back end on the first variant
+    `alts` are (name, text) variants of the same obligation with FEWER hypotheses: only `unsat` is accepted from them."""
     os.makedirs(SCRATCH, exist_ok=True)
     h = hashlib.sha1(text.encode()).hexdigest()[:16]
     path = os.path.join(SCRATCH, f"q-{h}-{os.getpid()}-{id(text) % 100000}.smt2")
     with open(path, "w") as f:
         f.write(text)
     alt_paths = []
-    plan = [(order[0], path)]
-    if order[0] == "z3-new" and len(order) > 1:
-        plan.append(("z3-new-r0", path))
-    for k, (aname, atext) in enumerate(alts):
+    named = []
+    for aname, atext in alts:
         if atext == text:
             continue
         ap = path[:-5] + f"-{aname}.smt2"
         with open(ap, "w") as f:
             f.write(atext)
         alt_paths.append(ap)
-        plan.append((order[0] + "/" + aname, ap))
-    if alt_paths and order[0] == "z3-new":
-        plan.append(("z3-new-r0/" + alts[0][0], alt_paths[0]))
-    first_wave = len(plan)
-    plan += [(n, path) for n in order[1:]]
-    if alt_paths:
-        plan.append(("z3/" + alts[0][0], alt_paths[0]))
-    alt_path = None
-    if len(order) == 1:
-        first_wave = len(plan)
+        named.append((aname, ap))
+    first = order[0]
+    plan = [(0.0, first, path)]
+    if named:
+        plan.append((0.0, first + "/" + named[0][0], named[0][1]))
+    if first == "z3-new" and len(order) > 1:
+        plan.append((stagger, "z3-new-r0", path))
+        if named:
+            plan.append((stagger, "z3-new-r0/" + named[0][0], named[0][1]))
+    for aname, ap in named[1:]:
+        plan.append((stagger, first + "/" + aname, ap))
+    for n in order[1:]:
+        plan.append((4 * stagger, n, path))
+    if named and len(order) > 1:
+        plan.append((4 * stagger, order[1] + "/" + named[0][0], named[0][1]))
     t0 = time.time()
     procs = {}
     tried = {}
@@ -440,16 +445,14 @@ def solve(text, timeout, order=("z3-new", "z3", "cvc5"), alts=(), stagger=1.5):
         except OSError:
             tried[name] = {"solver": name, "result": "error", "s": 0.0, "output": "not startable"}
 
-    for name, p in plan[:first_wave]:
-        start(name, p)
-    waiting = plan[first_wave:]
+    waiting = list(plan)
     decisive = None
-    deadline = t0 + timeout + stagger + 5
+    deadline = t0 + timeout + 4 * stagger + 5
     while decisive is None and time.time() < deadline:
-        if waiting and time.time() - t0 >= stagger:
-            for name, p in waiting:
-                start(name, p)
-            waiting = []
+        now = time.time() - t0
+        for item in [w for w in waiting if w[0] <= now]:
+            waiting.remove(item)
+            start(item[1], item[2])
         pending = [n for n in procs if n not in tried]
         if not pending and not waiting:
             break
@@ -458,8 +461,7 @@ def solve(text, timeout, order=("z3-new", "z3", "cvc5"), alts=(), stagger=1.5):
             if p.poll() is not None:
                 out = (p.stdout.read() or "").strip()
                 verdicts = [ln.strip() for ln in out.split("\n") if ln.strip() in ("sat", "unsat", "unknown")]
-                first = verdicts[0] if verdicts else ""
-                res = first if first in ("sat", "unsat", "unknown") else ("timeout" if ("timeout" in out or "interrupted" in out or "resourceout" in out) else "error")
+                res = verdicts[0] if verdicts else ("timeout" if ("timeout" in out or "interrupted" in out or "resourceout" in out) else "error")
                 if "/" in n and res == "sat":
                     res = "unknown"      # fewer hypotheses: a model means nothing
                 tried[n] = {"solver": n, "result": res, "s": round(time.time() - t0, 3), "output": res if res in ("sat", "unsat") else out[:400]}
@@ -482,7 +484,7 @@ def solve(text, timeout, order=("z3-new", "z3", "cvc5"), alts=(), stagger=1.5):
         except OSError:
             pass
     dt = time.time() - t0
-    tl = [tried[n] for n, _ in plan if n in tried]
+    tl = [tried[n] for _, n, _ in plan if n in tried]
     if decisive:
         return {"result": decisive[1], "solver": decisive[0], "s": dt, "tried": tl, "raw": decisive[2]}
     return {"result": "unknown", "solver": None, "s": dt, "tried": tl, "raw": ""}
